@@ -49,6 +49,7 @@ class Loops:
         self.cur_mod_names = {}
         self.invariants = {}     # (label, ordinal) -> fn(ex, env, i) -> [(name, props, formula)]
         self.axioms = {}         # (label, ordinal) -> fn(ex, env, i) -> [formula]  (ghost definitions, assumed only)
+        self.post_bind_axioms = {}   # same, evaluated after the loop target is bound (type invariants of host data)
 
     def loop_key(self, ex, node):
         fi = ex.task.finfo
@@ -240,6 +241,10 @@ class Loops:
             ex.assume(self.cond(ex, desc, i))
             ex.event('loop_iter', key, i)
             bind(self.elem(ex, desc, i), i)
+            pb = self.post_bind_axioms.get(key)
+            if pb is not None:
+                for f in pb(ex, env, i):
+                    ex.assume(f)
             try:
                 body(i)
             except ContinueEx:
@@ -298,6 +303,7 @@ class Loops:
             i = ex.fresh_int('i')
             ex.assume(i >= 0)
             self.assume_invs(ex, key, env, i)
+            ex.event('loop_iter', key, i)
             if not const_true:
                 c = ex.eval(st.test, env)
                 ex.assume(ex.truthy(c))
